@@ -351,9 +351,15 @@ def r4_sentinels(ctx, rule):
                     loaded[n.get("name")] = (m.group(1), m.group(2))
         seen = set()
         for n in C.walk(fn):
-            if n["kind"] != "ArraySubscriptExpr":
+            # xyz[<index>] or the pointer xyz + <index> (a position loaded through a pointer to its first component)
+            if n["kind"] == "ArraySubscriptExpr":
+                ks = C.kids(n)
+            elif n["kind"] == "BinaryOperator" and n.get("opcode") == "+" and "*" in C.qtype(n):
+                ks = C.kids(n)
+                if C.ref_name(ks[0]) != "xyz" and C.ref_name(ks[1]) == "xyz":
+                    ks = [ks[1], ks[0]]
+            else:
                 continue
-            ks = C.kids(n)
             base = C.ref_name(ks[0])
             if base != "xyz":
                 continue
